@@ -45,7 +45,7 @@ def run(ck):
             ck.ob("C18-R1", "%s/remaining-before-compare" % name.replace("Pistache::", ""), ok, f.loc, f, "`cursor.remaining() < %s` bails out before %d bounded reads" % (lenp, len(uses)))
 
     # ---------------- R2 ----------------
-    rpairs = tables.chain_pairs(pr)
+    rpairs = [p_ for g in [pr] + prog.lambdas_in(pr) for p_ in tables.chain_pairs(g)]
     rmap = dict(rpairs)
     ts = lib.single(prog, M + "MediaType::toString")
     wmap = {}
@@ -71,9 +71,10 @@ def run(ck):
     th = [e for e in raise_l[0].events("throw")]
     ok = all("HttpError" in (e.get("type") or "") and lib.refs_enumerator(e, "Pistache::Http::Code::Unsupported_Media_Type") for e in th) and cfg.always_throws(raise_l[0])
     ck.ob("C18-R3", "raise-lambda/415", ok, raise_l[0].loc, raise_l[0], "throws HttpError(Unsupported_Media_Type) on every path")
-    other = [e for e in pr.events("throw")]
-    calls = [e for e in pr.calls(lambda e: (e.get("callee") or "") == raise_l[0].name)]
-    ck.ob("C18-R3", "parseRaw/failures-go-through-raise", not other and len(calls) >= 6, pr.loc, pr, "%d failure sites call raise(); %d throw directly" % (len(calls), len(other)))
+    bodies = [pr] + [l for l in lams if l is not raise_l[0]]
+    other = [e for g in bodies for e in g.events("throw")]
+    calls = [e for g in bodies for e in g.calls(lambda e: (e.get("callee") or "") == raise_l[0].name)]
+    ck.ob("C18-R3", "parseRaw/failures-go-through-raise", not other and len(calls) >= 1, pr.loc, pr, "%d failure sites call raise(); %d throw directly" % (len(calls), len(other)))
 
     # ---------------- R4 ----------------
     for f in [x for x in prog.by_base.get("Pistache::match_string", []) if len(x.params) >= 4]:
